@@ -19,6 +19,9 @@ type C19Case struct {
 	// stand for the array / scalar column, {N} for a per-execution nonce. Selectors that fail only at run time
 	// are not used: whether they fail depends on the rows of the position they are planted in
 	BadSel string `json:"bad_selector,omitempty"`
+	// Spin (kind fn): the failing call is the ARGUMENT of a SPIN / SPINASYNC call - the argument is evaluated
+	// synchronously, so its failure is the query's failure, whatever happens to the qualified call itself
+	Spin string `json:"spin,omitempty"`
 	// raise kind
 	// Once (fn kind): the failing call carries the synchronous qualifier ONCE (one invocation per query)
 	Once      bool   `json:"once,omitempty"`
@@ -106,6 +109,9 @@ func genC19(t *rapid.T) any {
 	ms := c.W.markers()
 	c.Plant = rapid.IntRange(0, maxInt(len(ms)-1, 0)).Draw(t, "plant")
 	c.Once = kind == "fn" && rapid.IntRange(0, 5).Draw(t, "once") == 0
+	if kind == "fn" && !c.Once && rapid.IntRange(0, 5).Draw(t, "spin") == 0 {
+		c.Spin = rapid.SampledFrom([]string{"SPINASYNC", "SPIN"}).Draw(t, "spinq")
+	}
 	return c
 }
 
@@ -196,6 +202,10 @@ func checkC19(c *C19Case) Result {
 		// (where the row order is open, which row's argument a ONCE call receives is open too)
 		wrapFn = "ONCE.vf_fail"
 		res.Labels = append(res.Labels, "fault-in-ONCE-call")
+	}
+	if c.Spin != "" && c.Kind == "fn" {
+		wrapFn = c.Spin + ".vf_id(vf_fail(%s))"
+		res.Labels = append(res.Labels, "fault-in-argument-of-"+c.Spin)
 	}
 	sqlF := w.SQL(c.Plant, wrapFn)
 	base := Run(val.CopyMap(w.Doc), sqlF, w.opts())
